@@ -500,10 +500,33 @@ def model_to_dict(m):
                 else:
                     out[d.name()] = str(v)
             else:
-                out[d.name()] = str(v)
+                out[d.name()] = _func_interp(v)
         except Exception:
             pass
     return out
+
+
+def _plain_value(v):
+    if z3.is_int_value(v):
+        return v.as_long()
+    if z3.is_true(v) or z3.is_false(v):
+        return z3.is_true(v)
+    if z3.is_string_value(v):
+        return decode_z3_string(v.as_string())
+    return str(v)
+
+
+def _func_interp(fi):
+    """interpretation of an uninterpreted function in a counter-model (attributes of the elements of a symbolic
+    sequence are functions of the index): {'__fn__': [[[args...], value], ...], 'else': value, 'text': str}"""
+    try:
+        entries = []
+        for i in range(fi.num_entries()):
+            e = fi.entry(i)
+            entries.append([[_plain_value(e.arg_value(k)) for k in range(e.num_args())], _plain_value(e.value())])
+        return {'__fn__': entries, 'else': _plain_value(fi.else_value()), 'text': str(fi)[:300]}
+    except Exception:
+        return str(fi)
 
 
 def decode_z3_string(s):
